@@ -129,9 +129,8 @@ def run(ctx):
     direct = [b for b in bodies if not any(call_matches(t, r"^surface::range_bounds$") for bb, t in (inlined_private(prog, b.path, keep=KEEP) or b).calls())] + [rb]
     OPT_WIN = r"Option<\(usize, usize\)>"
 
-    def window_ok(st, ts, te, where, site, extra=None):
-        """0 <= start < end <= size in abstract state st (size = the body's own 2nd argument)"""
-        size_t = ("s", "a2", 0)
+    def window_ok(st, ts, te, where, site, extra=None, size_t=("s", "a2", 0)):
+        """0 <= start < end <= size in abstract state st (size = the body's own 2nd argument, or the given term)"""
         ok0 = ts is not None and st.le(("c", 0), ts)
         ok1 = ts is not None and te is not None and st.le(ts, te, True)
         ok2 = te is not None and st.le(te, size_t)
@@ -241,12 +240,29 @@ def run(ctx):
                         if pt is None:
                             return None
                         return ("c", pt[1] + tm[2]) if pt[0] == "c" else ("s", pt[1], pt[2] + tm[2])
+                    # the capture that holds `size` (possibly widened to i64): the window may also be decided inside the closure, where
+                    # values computed there (index + size, a remainder) are related to it
+                    size_c = None
+                    for ci, cop in enumerate(caps):
+                        pv = an.eval_op(st, cop, "cs%d" % bb)
+                        key = "_1.%d" % ci
+                        if pv.ref_to is not None:
+                            pv, key = st.vals.get(pv.ref_to), "(*_1.%d)" % ci
+                        if pv is not None and st.term(pv) == ("s", "a2", 0):
+                            for pre in ("(*_1)", "_1"):
+                                k2 = key.replace("_1", pre, 1) if pre != "_1" else key
+                                if "f:%s" % k2 in (cef or {}).get("fields", {}) or any(("f:%s" % k2) == sid for sid in can.in_states.get(0).syms):
+                                    size_c = ("s", "f:%s" % k2, 0)
                     rets = [r for r in can.cfg.returns if r in can.results]
                     miss = [] if rets else ["closure does not return"]
                     for r in rets:
                         rs = can.results[r]
                         v0, v1 = rs.vals.get("_0.0"), rs.vals.get("_0.1")
-                        miss += window_ok(st, back(rs.term(v0)) if v0 else None, back(rs.term(v1)) if v1 else None, b.path, site, {"form": "then", "closure": cpath})
+                        b0_, b1_ = (back(rs.term(v0)) if v0 else None), (back(rs.term(v1)) if v1 else None)
+                        if (b0_ is None or b1_ is None) and size_c is not None and v0 is not None and v1 is not None:
+                            miss += window_ok(rs, rs.term(v0), rs.term(v1), b.path, site, {"form": "then", "closure": cpath, "decided": "in closure"}, size_t=size_c)
+                        else:
+                            miss += window_ok(st, b0_, b1_, b.path, site, {"form": "then", "closure": cpath})
                 if miss:
                     ctx.violation("POST", b.path, "some-%d" % n_some, "returned window is not provably within 0 <= start < end <= size (%s)" % ", ".join(miss), sites=[site])
         if n_some == 0 and b0 in direct:
